@@ -481,6 +481,42 @@ def eval_sequence(mod_name, plans, timeout=330):
     return v if tag == 'ok' else None
 
 
+def eval_many(mod_name, sequences, workers=16, timeout=330):
+    """eval_sequence for many plan sequences, `workers` fresh children at a time.  Returns a list of (tag, violation):
+    tag 'ok' (violation may be None), 'err' (the plans could not be executed - e.g. a stale stored plan), 'timeout'."""
+    ctx = multiprocessing.get_context('fork')
+    out = [None] * len(sequences)
+    pending = list(enumerate(sequences))
+    live = {}
+    while pending or live:
+        while pending and len(live) < workers:
+            i, plans = pending.pop(0)
+            pc, cc = ctx.Pipe(duplex=False)
+            p = ctx.Process(target=_seq_child, args=(cc, mod_name, plans))
+            p.start()
+            cc.close()
+            live[i] = (p, pc, time.time())
+        for i in list(live):
+            p, pc, t0 = live[i]
+            got = None
+            try:
+                if pc.poll(0.02):
+                    got = pc.recv()
+                elif not p.is_alive():
+                    got = ['err', 'child died without an answer']
+                elif time.time() - t0 > timeout:
+                    p.kill()
+                    got = ['timeout', None]
+            except EOFError:
+                got = ['err', 'child closed the pipe']
+            if got is not None:
+                out[i] = (got[0], got[1] if got[0] == 'ok' else None)
+                p.join(5)
+                pc.close()
+                del live[i]
+    return out
+
+
 def minimise(mod_name, mod, plan, vclass, prefix=None, budget_s=60):
     """Delta debugging. Returns (plan, violation, prefix): `prefix` is the (reduced) list of plans that have to run
     before `plan` in the same process for the violation to show - empty for everything that does not depend on
